@@ -18,14 +18,14 @@ KEYS = ["a1", "a2", "b1", "xx", "a1x", "A1", "xa1"]
 KEYSETS = [list(c) for n in range(0, 5) for c in itertools.combinations(KEYS, n)]
 PATTERNS = [r"a\d", r"b\d", r"[ab]\d", r"\w+", r"a"]
 REGEX_LISTS = [list(c) for n in range(0, 3) for c in itertools.combinations(PATTERNS, n)]
-FIELD_LISTS = [[], ["m"], ["dict_field"], ["zz"], ["CamelField"], ["camelfield", "camel_field", "M"]]
-POSITIONS = ["field_m", "field_dict_field", "field_camel", "list_elem", "dict_value", "top"]
-SECOND = ["none", "other_object", "null"]
+FIELD_LISTS = [[], ["m"], ["dict_field"], ["zz"], ["CamelField"], ["camelfield", "camel_field", "M"], ["m,n"], ["m", "n"], ["m "]]
+POSITIONS = ["field_m", "field_dict_field", "field_camel", "list_elem", "dict_value", "top", "field_comma", "field_space"]
+SECOND = ["none", "other_object", "null", "empty_first"]
 
 
 def _cases(tier):
     regs = REGEX_LISTS if tier != "quick" else [r for r in REGEX_LISTS if len(r) <= 1] + [[r"a\d", r"b\d"], [r"a", r"\w+"]]
-    seconds = SECOND if tier != "quick" else ["none", "other_object"]
+    seconds = SECOND if tier != "quick" else ["none", "other_object", "empty_first"]
     for pos in POSITIONS:
         for ks in KEYSETS:
             if tier == "quick" and len(ks) > 3:
@@ -44,7 +44,7 @@ def _cases(tier):
             if len(ks) > (2 if tier == "quick" else 3):
                 continue
             for rl in [[], [r"a\d"], [r"a"], [r"[ab]\d", r"xx"]] if tier == "quick" else regs:
-                for fl in ([], ["m"], ["CamelField"]) if tier == "quick" else FIELD_LISTS:
+                for fl in ([], ["m"], ["CamelField"], ["m,n"], ["m "]) if tier == "quick" else FIELD_LISTS:
                     yield {"seam": "cli", "pos": pos, "keys": ks, "dkr": rl, "dkf": fl, "second": "none"}
 
 
@@ -62,6 +62,9 @@ def _samples(case):
         "field_m": lambda x: {"m": x, "zz": 1},
         "field_dict_field": lambda x: {"dict_field": x, "zz": 1},
         "field_camel": lambda x: {"CamelField": x, "zz": 1},
+        # field names are arbitrary JSON keys: a comma or outer white space is part of the name
+        "field_comma": lambda x: {"m,n": x, "m": {"xx": 1, "yy!": 2}, "zz": 1},
+        "field_space": lambda x: {"m ": x, "m": {"xx": 1, "yy!": 2}, "zz": 1},
         "list_elem": lambda x: {"m": [x], "zz": 1},
         "dict_value": lambda x: {"m": {"a1": x, "a2": x}, "zz": 1},
         "top": lambda x: dict(x, zz=1),
@@ -69,6 +72,9 @@ def _samples(case):
     out = [wrap(o)]
     if case["second"] == "other_object":
         out.append(wrap({"yy!": 1, "zz zz": [1]}) if pos != "top" else {"yy!": 1, "zz": 2})
+    elif case["second"] == "empty_first":
+        # an empty object at the same position arrives BEFORE the object under test
+        out.insert(0, {"m": {}, "zz": 1} if pos == "dict_value" else (wrap({}) if pos != "top" else {"zz": 0}))
     elif case["second"] == "null":
         out.append(wrap(None) if pos not in ("top", "list_elem", "dict_value") else {"zz": 2})
     return out
